@@ -860,7 +860,8 @@ class PyvalColorizer:
             self._output(flags_str, self.RE_FLAGS_TAG, state)
 
     def _colorize_re_tree(self, tree: Sequence[Tuple[sre_constants._NamedIntConstant, Any]],
-                          state: _ColorizerState, noparen: bool, groups: Dict[int, str]) -> None:
+                          state: _ColorizerState, noparen: bool, groups: Dict[int, str], 
+                          in_class: bool = False) -> None:
 
         if len(tree) > 1 and not noparen:
             self._output('(', self.RE_GROUP_TAG, state)
@@ -874,6 +875,10 @@ class PyvalColorizer:
                 # Add any appropriate escaping.
                 if c in '.^$\\*+?{}[]|()\'': 
                     c = '\\' + c
+                elif c == '-' and in_class:
+                    # A hyphen between two members of a character class 
+                    # (or at the end of a range) would be read as a range.
+                    c = r'\-'
                 elif c == '\t': 
                     c = r'\t'
                 elif c == '\r': 
@@ -916,7 +921,11 @@ class PyvalColorizer:
                     self._colorize_re_tree(args, state, False, groups)
                 else:
                     self._output('[', self.RE_GROUP_TAG, state)
-                    self._colorize_re_tree(args, state, True, groups)
+                    # The first and the last member of the class can be a plain hyphen.
+                    first = 1 if args[0][0] == sre_constants.NEGATE else 0 #type:ignore[attr-defined]
+                    for i, member in enumerate(args):
+                        self._colorize_re_tree((member,), state, True, groups, 
+                                               in_class=first < i < len(args)-1)
                     self._output(']', self.RE_GROUP_TAG, state)
 
             elif op == sre_constants.CATEGORY: #type:ignore[attr-defined]
@@ -996,10 +1005,10 @@ class PyvalColorizer:
 
             elif op == sre_constants.RANGE: #type:ignore[attr-defined]
                 self._colorize_re_tree( ((sre_constants.LITERAL, args[0]),), #type:ignore[attr-defined]
-                                        state, False, groups )
+                                        state, False, groups, in_class=True )
                 self._output('-', self.RE_OP_TAG, state)
                 self._colorize_re_tree( ((sre_constants.LITERAL, args[1]),), #type:ignore[attr-defined]
-                                        state, False, groups )
+                                        state, False, groups, in_class=True )
 
             elif op == sre_constants.NEGATE: #type:ignore[attr-defined]
                 self._output('^', self.RE_OP_TAG, state)
